@@ -26,6 +26,12 @@
 //!   chan <field> <hasher> <AirDesc line> <proof bytes hex>   `Proof::from_bytes` and the sub-structure
 //!                         parse (what `VerifierChannel::new` does) of one structurally mutated proof;
 //!                         COMPARED WITH THE LEAN MODEL (`channelParse` of Winter/Model/VerifierChecks.lean)
+//!   refv <field> <hasher> <q.b.g.x.f.r> <trace seed> <AirDesc line> <acceptable> <public inputs> <tag> <proof bytes hex>
+//!                         ONE proof (honest or mutated, bytes in the line) given to `Proof::from_bytes` and the
+//!                         real `verify`; output = verdict class `ok` | `parse-err` | `err:<VerifierError kind>` |
+//!                         `panic`; COMPARED WITH THE EXECUTABLE REFERENCE VERIFIER IN LEAN (`refVerify` of
+//!                         Winter/Model/RefVerifier.lean) on exactly the same bytes.  <acceptable> = `os:<opts>,..`
+//!                         (OptionSet) | `mc:<bits>` (MinConjecturedSecurity); <tag> = mutation family (not read)
 //! output: `n=<mutants> parsefail=.. rejected=.. same=.. exempt=.. panic=.. accepted=..`
 //!
 //! Sites: `c03.accepted-mutation.<component>`, `c03.rejected-same-content.<component>`,
@@ -587,9 +593,32 @@ fn partitions_equivalent(b: &Base, positions: &[usize], np1: u8, np2: u8) -> boo
     true
 }
 
+thread_local! {
+    /// when set, `judge` records the mutants it is handed instead of judging them (generation of `refv` lines)
+    static COLLECT: std::cell::RefCell<Option<Vec<(&'static str, Vec<u8>)>>> = const { std::cell::RefCell::new(None) };
+}
+
+/// the mutants a family produces for `b`, with the component each one touches
+fn collect_mutants(f: impl FnOnce() -> Tally) -> Vec<(&'static str, Vec<u8>)> {
+    COLLECT.with(|c| *c.borrow_mut() = Some(vec![]));
+    let _ = f();
+    COLLECT.with(|c| c.borrow_mut().take()).unwrap_or_default()
+}
+
 /// judge one mutant; `what` describes the mutation for the failure detail
 fn judge(b: &Base, t: &mut Tally, mutant: &[u8], what: &str, hint: &'static str) {
     if mutant == &b.bytes[..] {
+        return;
+    }
+    let collecting = COLLECT.with(|c| {
+        if let Some(v) = c.borrow_mut().as_mut() {
+            v.push((hint, mutant.to_vec()));
+            true
+        } else {
+            false
+        }
+    });
+    if collecting {
         return;
     }
     t.n += 1;
@@ -1457,6 +1486,219 @@ fn exec_chan(t: &[&str]) -> Outcome {
     }
 }
 
+// ------------------------------------------------------------------------------------ refv (reference verifier tie)
+/// verdict class of a verifier error: the variant name; FRI errors keep the inner variant and its layer depth
+fn refv_kind(e: &winter_verifier::VerifierError) -> String {
+    use winter_fri::VerifierError as F;
+    use winter_verifier::VerifierError as V;
+    match e {
+        V::FriVerificationFailed(f) => match f {
+            F::InvalidLayerFolding(d) => format!("err:FriVerificationFailed.InvalidLayerFolding:{}", d),
+            F::DegreeTruncation(_, _, d) => format!("err:FriVerificationFailed.DegreeTruncation:{}", d),
+            _ => format!("err:{}", verifier_error_kind(e)),
+        },
+        _ => format!("err:{}", verifier_error_kind(e)),
+    }
+}
+
+fn parse_acceptable(s: &str) -> Option<AcceptableOptions> {
+    if let Some(r) = s.strip_prefix("os:") {
+        let mut v = vec![];
+        for o in r.split(',') {
+            let o = OptSpec::parse(o)?;
+            if !o.accepted() {
+                return None;
+            }
+            v.push(o.to_options());
+        }
+        Some(AcceptableOptions::OptionSet(v))
+    } else if let Some(r) = s.strip_prefix("mc:") {
+        Some(AcceptableOptions::MinConjecturedSecurity(r.parse::<u32>().ok()?))
+    } else {
+        None
+    }
+}
+
+fn pubs_text(p: &[u128]) -> String {
+    if p.is_empty() {
+        "-".into()
+    } else {
+        p.iter().map(|v| v.to_string()).collect::<Vec<_>>().join(",")
+    }
+}
+
+/// `refv <field> <hasher> <opts> <seed> <desc> <acceptable> <pubs> <tag> <hex>`
+fn exec_refv(t: &[&str]) -> Outcome {
+    if t.len() != 9 {
+        return Outcome::ok("bad-op");
+    }
+    let (field, hash, desc) = match (FieldId::parse(t[0]), HashId::parse(t[1]), AirDesc::parse(t[4])) {
+        (Some(f), Some(h), Ok(d)) if h.compatible(f) && d.validate().is_ok() => (f, h, Arc::new(d)),
+        _ => return Outcome::ok("bad-op"),
+    };
+    let acceptable = match parse_acceptable(t[5]) {
+        Some(a) => a,
+        None => return Outcome::ok("bad-op"),
+    };
+    let pubs: Vec<u128> = if t[6] == "-" {
+        vec![]
+    } else {
+        match t[6].split(',').map(|x| x.parse::<u128>().ok()).collect::<Option<Vec<_>>>() {
+            Some(p) => p,
+            None => return Outcome::ok("bad-op"),
+        }
+    };
+    if t[8] != "-" && (t[8].len() % 2 != 0 || !t[8].bytes().all(|b| b.is_ascii_hexdigit())) {
+        return Outcome::ok("bad-op");
+    }
+    let bytes = unhex(t[8]);
+    let proof = match guarded(|| Proof::from_bytes(&bytes)) {
+        Err(_) => return Outcome::ok("panic"),
+        Ok(Err(_)) => return Outcome::ok("parse-err"),
+        Ok(Ok(p)) => p,
+    };
+    match guarded(|| verify(&desc, field, hash, &pubs, proof, &acceptable)) {
+        Ok(Ok(())) => Outcome::ok("ok"),
+        Ok(Err(e)) => Outcome::ok(refv_kind(&e)),
+        Err(_) => Outcome::ok("panic"),
+    }
+}
+
+/// descriptions for the reference-verifier tie: no auxiliary segment; periodic columns, the three assertion
+/// kinds and more than one exemption all occur
+fn refv_descs(rng: &mut Rng, count: usize, max_log_len: u32) -> Vec<AirDesc> {
+    let mut v: Vec<AirDesc> = small_descs(8).into_iter().filter(|d| d.aux.is_none()).collect();
+    let p0 = vec![3u128, 5, 7, 11];
+    // periodic column in a constraint (degree with a cycle), periodic assertion on a cyclic column, sequence assertion
+    let e = Expr::add(Expr::mul(Expr::Per(0), Expr::Cur(0)), Expr::Const(3));
+    let d = AirDesc {
+        width: 2,
+        trace_len: 8,
+        exemptions: 1,
+        tail_junk: false,
+        periodic: vec![p0.clone()],
+        cols: vec![ColGen::Step { init: None, expr: e.clone() }, ColGen::Cyc(2)],
+        constraints: vec![Constraint { degree: Degree { base: 1, cycles: vec![4] }, expr: Expr::sub(Expr::Nxt(0), e) }],
+        assertions: vec![AssertDesc::sequence(0, 1, 4), AssertDesc::periodic(1, 0, 2), AssertDesc::single(0, 0)],
+        aux: None,
+    };
+    v.push(d);
+    // two exemptions with a junk tail, degree 3
+    let e = Expr::add(Expr::pow(Expr::Cur(0), 3), Expr::Cur(1));
+    let mut d = AirDesc {
+        width: 2,
+        trace_len: 16,
+        exemptions: 2,
+        tail_junk: true,
+        periodic: vec![],
+        cols: vec![ColGen::Step { init: None, expr: e.clone() }, ColGen::Counter],
+        constraints: vec![
+            Constraint { degree: Degree::new(3), expr: Expr::sub(Expr::Nxt(0), e) },
+            Constraint { degree: Degree::new(1), expr: Expr::sub(Expr::Nxt(1), Expr::add(Expr::Cur(1), Expr::Const(1))) },
+        ],
+        assertions: vec![AssertDesc::single(0, 0), AssertDesc::sequence(1, 0, 8)],
+        aux: None,
+    };
+    v.push(d.clone());
+    d.exemptions = 3;
+    v.push(d);
+    let bud = Budget { min_log_len: 3, max_log_len, max_width: 3, max_degree: 3, aux_pct: 0, lagrange_pct: 0, exemptions: true, degenerate: false, sequences: true };
+    let mut guard = 0;
+    while v.len() < count && guard < 10 * count {
+        guard += 1;
+        let d = random_desc(rng, &bud);
+        if d.aux.is_none() && d.validate().is_ok() {
+            v.push(d);
+        }
+    }
+    v.into_iter().filter(|d| d.validate().is_ok()).take(count).collect()
+}
+
+/// the `refv` op lines: per configuration the honest proof, policy and public-input variants of it, and a
+/// sample of every mutation family applied to its bytes
+fn refv_lines(rng: &mut Rng, tier: Tier) -> Vec<String> {
+    let quick = tier == Tier::Quick;
+    let (ncfg, per) = if quick { (12, 2usize) } else { (72, 4usize) };
+    let descs = refv_descs(rng, ncfg, if quick { 4 } else { 5 });
+    let mut out = vec![];
+    for (k, d) in descs.iter().enumerate() {
+        let n = d.trace_len;
+        let b = d.min_blowup().max(if k % 3 == 0 { 4 } else { 2 });
+        let (f, r) = [(2usize, 1usize), (4, 1), (2, 3), (4, 3), (2, 0), (8, 1), (4, 7)][k % 7];
+        let (f, r) = if fri_ok(n * b, b, f, r) { (f, r) } else { (2, 3) };
+        let q = [1usize, 2, 3, 4][k % 4];
+        let g = if k % 4 == 1 { 2 } else { 0 };
+        let ext = [1u8, 2, 1, 2, 3][k % 5];
+        let meta = match k % 3 {
+            0 => vec![],
+            1 => vec![7u8],
+            _ => (1..=9u8).collect(),
+        };
+        let c = Cfg { field: FieldId::F64, hash: HashId::Rp64_256, opts: OptSpec::new(q, b, g, ext, f, r), seed: 7000 + k as u64, desc: Arc::new(d.clone()), meta };
+        let base = match make_base(&c) {
+            Ok(x) => x,
+            Err(_) => continue,
+        };
+        let head = format!("refv {} {} {} {} {}", c.field.name(), c.hash.name(), c.opts.to_text(), c.seed, c.desc.to_line());
+        let os = format!("os:{}", c.opts.to_text());
+        let pubs = pubs_text(&base.pubs);
+        let hx = hex(&base.bytes);
+        // honest proof under both kinds of policy
+        out.push(format!("{} {} {} honest {}", head, os, pubs, hx));
+        out.push(format!("{} mc:0 {} honest {}", head, pubs, hx));
+        // policies that refuse it / just accept it
+        let level = base.proof.security_level::<Rp64_256>(true);
+        out.push(format!("{} mc:{} {} policy {}", head, level, pubs, hx));
+        out.push(format!("{} mc:{} {} policy {}", head, level + 1, pubs, hx));
+        let mut other = c.opts;
+        other.queries += 1;
+        out.push(format!("{} os:{} {} policy {}", head, other.to_text(), pubs, hx));
+        out.push(format!("{} os:{},{} {} policy {}", head, other.to_text(), c.opts.to_text(), pubs, hx));
+        // other public inputs: one value changed, one dropped, one appended
+        let mut p2 = base.pubs.clone();
+        p2[0] = (p2[0] + 1) % FieldId::F64.modulus();
+        out.push(format!("{} {} {} pubs {}", head, os, pubs_text(&p2), hx));
+        if k % 2 == 0 {
+            let mut p3 = base.pubs.clone();
+            p3.pop();
+            out.push(format!("{} {} {} pubs {}", head, os, pubs_text(&p3), hx));
+            let mut p4 = base.pubs.clone();
+            p4.push(0);
+            out.push(format!("{} {} {} pubs {}", head, os, pubs_text(&p4), hx));
+        }
+        // mutants of the serialized proof, sampled per family
+        let nbits = base.bytes.len() * 8;
+        let fams: Vec<(&'static str, usize, Vec<(&'static str, Vec<u8>)>)> = vec![
+            ("flips", 3 * per, collect_mutants(|| run_flips(&base, (k * 7) % 61, nbits, 61))),
+            ("bytes", per, collect_mutants(|| run_bytes(&base, (k * 5) % 97, base.bytes.len(), 97))),
+            ("fields", 2 * per, collect_mutants(|| run_fields(&base))),
+            ("resize", per, collect_mutants(|| run_resize(&base))),
+            ("reorder", 2 * per, collect_mutants(|| run_reorder(&base))),
+            ("remainder", if quick { 3 } else { 6 }, collect_mutants(|| run_remainder(&base))),
+            ("partitions", per.min(2), collect_mutants(|| run_partitions(&base))),
+            ("nonces", per.min(2), collect_mutants(|| run_nonces(&base, 6))),
+            ("extras", per, collect_mutants(|| run_extras(&base))),
+            ("chan", per, (0..24).map(|i| ("structure", chan_mutant(&base, i * 5 + k))).filter(|m| m.1 != base.bytes).collect()),
+        ];
+        for (fam, take, mut ms) in fams {
+            // sample without replacement
+            let mut taken = 0;
+            while taken < take && !ms.is_empty() {
+                let i = rng.below(ms.len() as u64) as usize;
+                let (comp, m) = ms.swap_remove(i);
+                taken += 1;
+                let same_opts = match guarded(|| Proof::from_bytes(&m)) {
+                    Ok(Ok(p)) => p.options() == base.proof.options(),
+                    _ => true,
+                };
+                let acc = if same_opts { os.clone() } else { "mc:0".to_string() };
+                out.push(format!("{} {} {} {}:{} {}", head, acc, pubs, fam, comp, hex(&m)));
+            }
+        }
+    }
+    out
+}
+
 // ------------------------------------------------------------------------------------ generators
 fn ex(e: Expr) -> Expr {
     e
@@ -1580,8 +1822,18 @@ impl Prop for P {
     fn gen(&self, rng: &mut Rng, tier: Tier, n: usize, emit: &mut dyn FnMut(String)) {
         let quick = tier == Tier::Quick;
         let cfgs = configs(rng, tier);
+        // the reference-verifier lines are spread over the run: the model side of the check evaluates
+        // contiguous pieces of the op list in parallel, and these lines are the expensive ones there
+        let mut refv_rng = rng.fork();
+        let refv = refv_lines(&mut refv_rng, tier);
+        let refv_chunk = (refv.len() + cfgs.len().max(1) - 1) / cfgs.len().max(1);
+        let mut refv_next = 0usize;
         let exhaustive_budget = default_n(tier, 6, 1_000_000, n);
         for (ci, c) in cfgs.iter().enumerate() {
+            while refv_next < refv.len().min((ci + 1) * refv_chunk) {
+                emit(refv[refv_next].clone());
+                refv_next += 1;
+            }
             let ct = cfg_text(c);
             // the size of the proof is needed to lay out the flip ranges
             let b = match make_base(c) {
@@ -1632,8 +1884,13 @@ impl Prop for P {
                 emit(format!("chan {} {} {} {}", c.field.name(), c.hash.name(), c.desc.to_line(), hex(&m)));
             }
         }
+        while refv_next < refv.len() {
+            emit(refv[refv_next].clone());
+            refv_next += 1;
+        }
         emit("flips f64".into());
         emit("fields f64 blake3_256 1.2.0.1.2.3 1 garbage -".into());
+        emit("refv f64 rp64_256 1.2.0.1.2.3 1 garbage os:1.2.0.1.2.3 - honest 00".into());
     }
 
     fn exec(&self, line: &str) -> Outcome {
@@ -1642,11 +1899,14 @@ impl Prop for P {
             Some(op) => op,
             None => return Outcome::ok("bad-op"),
         };
-        if !["flips", "bytes", "fields", "resize", "reorder", "remainder", "partitions", "nonces", "extras", "chan"].contains(&op) {
+        if !["flips", "bytes", "fields", "resize", "reorder", "remainder", "partitions", "nonces", "extras", "chan", "refv"].contains(&op) {
             return Outcome::ok("bad-op");
         }
         if op == "chan" {
             return exec_chan(&t[1..]);
+        }
+        if op == "refv" {
+            return exec_refv(&t[1..]);
         }
         let c = match parse_cfg(&t[1..]) {
             Ok(c) => c,
@@ -1688,6 +1948,11 @@ impl Prop for P {
     fn class(&self, line: &str, out: &str) -> String {
         let t: Vec<&str> = line.split(' ').collect();
         let op = t.first().copied().unwrap_or("");
+        if op == "refv" {
+            // mutation family x verdict class
+            let fam = t.get(8).map(|x| x.split(':').next().unwrap_or("")).unwrap_or("");
+            return format!("refv.{}:{}", fam, out.split(':').take(2).collect::<Vec<_>>().join(":"));
+        }
         let o = if out.starts_with("n=") {
             let acc = out.split(' ').find(|x| x.starts_with("accepted=")).unwrap_or("accepted=?");
             if acc == "accepted=0" {
